@@ -26,17 +26,34 @@ HEADER = ("From Coq Require Import List NArith.\nFrom PV Require Import Lib.List
 
 
 _coq_eval_raw = coq_eval
+_harness_raw = harness
+PHASE = {}
+
+
+def harness(cmd, reqs, *a, **kw):
+    import time
+    t0 = time.time()
+    try:
+        return _harness_raw(cmd, reqs, *a, **kw)
+    finally:
+        PHASE["harness " + cmd] = round(PHASE.get("harness " + cmd, 0) + time.time() - t0, 1)
+        PHASE["n harness " + cmd] = PHASE.get("n harness " + cmd, 0) + len(reqs)
 
 
 def coq_eval(header, exprs):
     """coq_eval with one retry: another check may have rebuilt a shared model file (Model/Literal.v, SqlLex.v) meanwhile, which
     leaves our .vo files stale ("makes inconsistent assumptions"); rebuild ours and evaluate again"""
+    import time
+    t0 = time.time()
     try:
         return _coq_eval_raw(header, exprs)
     except RuntimeError:
         with Lock("coq"):
             coq_make(["Model/Escape.vo", "Model/SqlLex.vo", "Model/Ident.vo", "Model/NameGen.vo", "Gen/GenKeywords.vo", "Gen/GenIdentDialect.vo"])
         return _coq_eval_raw(header, exprs)
+    finally:
+        PHASE["coq_eval"] = round(PHASE.get("coq_eval", 0) + time.time() - t0, 1)
+        PHASE["n coq_eval exprs"] = PHASE.get("n coq_eval exprs", 0) + len(exprs)
 
 
 def s_of(codes):
@@ -973,6 +990,7 @@ def run():
     ck.coverage["names"] = len(names)
     ck.coverage["e2e_rejected_by_resolver"] = rejected
 
+    ck.coverage["phase_seconds"] = dict(PHASE)
     ck.proof_broken_violation(found_input=bool(ck.violations))
     ck.assumptions += ["SQLite quirk excluded: a column literally named true/false loses its name through a sub-query (SELECT \"true\" FROM (SELECT \"true\" FROM t) yields the string 'true'); such cases are counted, not judged",
                        "SQLite matches identifiers ASCII-case-insensitively: names used together in one schema are kept distinct under case folding",
